@@ -36,6 +36,7 @@ func nodeProps() map[string]simrt.Prop {
 		"C25":   {Run: runNode("C25"), Opt: opt},
 		"C29":   {Run: runNode("C29"), Opt: opt},
 		"C54":   {Run: runNode("C54"), Opt: opt},
+		"C15":   {Run: runC15, Opt: opt},
 	}
 }
 
